@@ -87,7 +87,8 @@ type Sched struct {
 	hash     uint64 // running hash of (name, site) at every switch
 
 	trMu     sync.Mutex
-	trace    []string
+	ring     []string
+	trN      int
 	traceCap int
 
 	nextL   atomic.Int64
@@ -365,15 +366,38 @@ func (s *Sched) step() (Status, *G) {
 	return Ran, g
 }
 
+// The trace is a fixed ring written by element assignment only: copy and
+// append go through runtime helpers that report to the race detector even from
+// go:norace functions.
+//
 //go:norace
 func (s *Sched) addTrace(line string) {
-	s.trMu.Lock()
-	if len(s.trace) >= 2*s.traceCap {
-		copy(s.trace, s.trace[len(s.trace)-s.traceCap:])
-		s.trace = s.trace[:s.traceCap]
+	if s.traceCap <= 0 {
+		return
 	}
-	s.trace = append(s.trace, strconv.Itoa(s.Steps)+" "+line)
+	s.trMu.Lock()
+	if len(s.ring) != s.traceCap {
+		old := s.traceLocked(len(s.ring))
+		s.ring = make([]string, s.traceCap)
+		s.trN = 0
+		for _, l := range old {
+			s.ring[s.trN%len(s.ring)] = l
+			s.trN++
+		}
+	}
+	s.ring[s.trN%len(s.ring)] = strconv.Itoa(s.Steps) + " " + line
+	s.trN++
 	s.trMu.Unlock()
+}
+
+//go:norace
+func (s *Sched) traceLocked(n int) []string {
+	k := min(n, s.trN, len(s.ring))
+	out := make([]string, k)
+	for i := 0; i < k; i++ {
+		out[i] = s.ring[(s.trN-k+i)%len(s.ring)]
+	}
+	return out
 }
 
 // SetTraceCap sets how many trace lines are kept.
@@ -393,11 +417,7 @@ func (s *Sched) Logf(format string, a ...any) {
 func (s *Sched) Trace(n int) []string {
 	s.trMu.Lock()
 	defer s.trMu.Unlock()
-	t := s.trace
-	if len(t) > n {
-		t = t[len(t)-n:]
-	}
-	return append([]string(nil), t...)
+	return s.traceLocked(n)
 }
 
 // ScheduleHash identifies the sequence of context switches of this run.
